@@ -171,6 +171,19 @@ CHECKS["C14"] = {
     "note": "model-generated round-trip testing: TLC proves nothing about protobuf, zlib or lz4; valid UTF-8 only, as the quantifier says",
     "technique": "TLC-enumerated structural cases round-tripped through the real forwarder and the real ingestion endpoint",
 }
+CHECKS["C15"] = {
+    "text": "Forwarder.tla models the consolidator's slot channel (take / merge / put, Drain, hand-over, Fill), request tokens and the retry "
+            "give-up rule, composed with the DeliveryProp monitor and a conservation invariant; TLC checks all interleavings of small "
+            "instances (also with Fill before the hand-over) and refutes a short Drain. TLC-generated schedules over 64 configurations "
+            "drive the real forwarder against a scripted upstream under virtual time (manual flush through the real coordinator or timer); "
+            "a real-time stress run adds genuine goroutine concurrency; TLC validates all traces: every datapoint in exactly one distinct "
+            "body, resend only after failure and within the window, abandonment only after the window and counted once, header "
+            "partition, nothing lost -- also with tags that are not valid UTF-8.",
+    "design_ref": "6/C15",
+    "note": "observer times are whole milliseconds, so the window clauses leave a 1 ms band undecided; inside the bubble dispatches are "
+            "sequential per step, concurrency comes from the I-level check and the stress run",
+    "technique": "TLC design check of consolidator+forwarder + TLC trace validation of scheduled (virtual time) and stressed (real time) runs",
+}
 NOT_APPLICABLE = [{"property_id": p, "reason": "check not built yet (build in progress; see DESIGN.md Appendix B for the order)"}
                   for p in ALL if p not in CHECKS]
 ENGINES[0]["serves_properties"] = sorted(CHECKS)
